@@ -3,6 +3,7 @@ C06 property theorems. Only statements of the property + non-vacuity examples li
 helper lemmas are in Lemmas.lean.
 -/
 import BV.C06.Mono
+import BV.C06.Mono2
 import BV.C06.NoFuel
 import BV.C06.Elems
 import BV.C06.Der
@@ -296,6 +297,42 @@ theorem softfork_monotone_p2sh (fl : Flags) (hcs : fl.cleanstack = false) (hw : 
     (h : verifyScript { fl with p2sh := true } chk scriptSig scriptPubKey wit = .ok ()) :
     verifyScript { fl with p2sh := false } chk scriptSig scriptPubKey wit = .ok () :=
   Lemmas.verifyScript_p2sh_off fl hcs hw chk scriptSig scriptPubKey wit h
+
+/-! ### the DISCOURAGE_* policy flags only add failures -/
+
+/-- DISCOURAGE_UPGRADABLE_NOPS: whatever verifies with the flag verifies without it. -/
+theorem discourage_monotone_nops (fl : Flags) (chk : Checker) (scriptSig scriptPubKey : Bytes) (wit : List Bytes)
+    (h : verifyScript { fl with discourageNops := true } chk scriptSig scriptPubKey wit = .ok ()) :
+    verifyScript { fl with discourageNops := false } chk scriptSig scriptPubKey wit = .ok () :=
+  Lemmas.verifyScript_mono Lemmas.dnops_tightening fl chk scriptSig scriptPubKey wit () h
+
+/-- DISCOURAGE_UPGRADABLE_PUBKEYTYPE (tapscript). -/
+theorem discourage_monotone_pubkeytype (fl : Flags) (chk : Checker) (scriptSig scriptPubKey : Bytes)
+    (wit : List Bytes)
+    (h : verifyScript { fl with discouragePubkeytype := true } chk scriptSig scriptPubKey wit = .ok ()) :
+    verifyScript { fl with discouragePubkeytype := false } chk scriptSig scriptPubKey wit = .ok () :=
+  Lemmas.verifyScript_mono Lemmas.DPK_tightening fl chk scriptSig scriptPubKey wit () h
+
+/-- DISCOURAGE_UPGRADABLE_WITNESS_PROGRAM. -/
+theorem discourage_monotone_witness_program (fl : Flags) (chk : Checker) (scriptSig scriptPubKey : Bytes)
+    (wit : List Bytes)
+    (h : verifyScript { fl with discourageWitnessProgram := true } chk scriptSig scriptPubKey wit = .ok ()) :
+    verifyScript { fl with discourageWitnessProgram := false } chk scriptSig scriptPubKey wit = .ok () :=
+  Lemmas.verifyScript_mono_seq Lemmas.DWP_seq fl chk scriptSig scriptPubKey wit () h
+
+/-- DISCOURAGE_UPGRADABLE_TAPROOT_VERSION. -/
+theorem discourage_monotone_taproot_version (fl : Flags) (chk : Checker) (scriptSig scriptPubKey : Bytes)
+    (wit : List Bytes)
+    (h : verifyScript { fl with discourageTaprootVersion := true } chk scriptSig scriptPubKey wit = .ok ()) :
+    verifyScript { fl with discourageTaprootVersion := false } chk scriptSig scriptPubKey wit = .ok () :=
+  Lemmas.verifyScript_mono_seq Lemmas.DTV_seq fl chk scriptSig scriptPubKey wit () h
+
+/-- DISCOURAGE_OP_SUCCESS. -/
+theorem discourage_monotone_op_success (fl : Flags) (chk : Checker) (scriptSig scriptPubKey : Bytes)
+    (wit : List Bytes)
+    (h : verifyScript { fl with discourageOpSuccess := true } chk scriptSig scriptPubKey wit = .ok ()) :
+    verifyScript { fl with discourageOpSuccess := false } chk scriptSig scriptPubKey wit = .ok () :=
+  Lemmas.verifyScript_mono_seq Lemmas.DOS_seq fl chk scriptSig scriptPubKey wit () h
 
 /-- the hypotheses of the monotonicity theorems are satisfiable: a spend that verifies under all six flags -/
 example : ∃ chk : Checker,
